@@ -96,6 +96,35 @@ def disjuncts(t):
 def find_guard(f, pred, exc=None, before_line=None, dominate_returns=False):
     """An `if <test>: raise X` at the unconditional top level of the function (or nested only under try/with)
     where some disjunct of <test> satisfies ``pred``.  Returns the If node or None."""
+    # names that merely hold len(<something>) read as that length in the tests
+    import copy as _copy
+    cnt = {}
+    for x in ast.walk(f.node):
+        if isinstance(x, (ast.Assign, ast.AugAssign, ast.AnnAssign)):
+            for t in (x.targets if isinstance(x, ast.Assign) else [x.target]):
+                for y in ast.walk(t):
+                    if isinstance(y, ast.Name):
+                        cnt[y.id] = cnt.get(y.id, 0) + 1
+    lenalias = {}
+    for x in ast.walk(f.node):
+        if isinstance(x, ast.Assign) and len(x.targets) == 1 and isinstance(x.targets[0], ast.Name) and cnt.get(x.targets[0].id) == 1 \
+                and isinstance(x.value, ast.Call) and isinstance(x.value.func, ast.Name) and x.value.func.id == 'len' and len(x.value.args) == 1:
+            lenalias[x.targets[0].id] = x.value
+    if lenalias:
+        class _Sub(ast.NodeTransformer):
+            def visit_Name(self, n):
+                if n.id in lenalias and isinstance(n.ctx, ast.Load):
+                    return _copy.deepcopy(lenalias[n.id])
+                return n
+        raw_pred = pred
+
+        def pred(d, raw_pred=raw_pred):
+            if raw_pred(d):
+                return True
+            if any(isinstance(y, ast.Name) and y.id in lenalias for y in ast.walk(d)):
+                return raw_pred(_Sub().visit(_copy.deepcopy(d)))
+            return False
+
     def scan(stmts):
         for s in stmts:
             if before_line is not None and s.lineno >= before_line:
@@ -188,3 +217,46 @@ def pos_if(node):
             body, orelse = orelse, body
             continue
         return t, body, orelse
+
+
+def simple_aliases(f):
+    """Single-assignment locals that only name something else: `x = self.a.b`, `n = len(self)`.  name -> rhs node."""
+    cnt, rhs = {}, {}
+    for x in ast.walk(f.node):
+        if isinstance(x, (ast.Assign, ast.AugAssign, ast.AnnAssign, ast.For, ast.NamedExpr, ast.comprehension)):
+            tg = x.targets if isinstance(x, ast.Assign) else [x.target]
+            for t in tg:
+                for y in ast.walk(t):
+                    if isinstance(y, ast.Name):
+                        cnt[y.id] = cnt.get(y.id, 0) + 1
+        if isinstance(x, ast.Assign) and len(x.targets) == 1 and isinstance(x.targets[0], ast.Name):
+            rhs[x.targets[0].id] = x.value
+    params = set()
+    a = f.node.args
+    for p in a.posonlyargs + a.args + a.kwonlyargs:
+        params.add(p.arg)
+
+    def pure(e):
+        if isinstance(e, ast.Name):
+            return True
+        if isinstance(e, ast.Attribute):
+            return pure(e.value)
+        if isinstance(e, ast.Call) and isinstance(e.func, ast.Name) and e.func.id == 'len' and len(e.args) == 1 and not e.keywords:
+            return pure(e.args[0])
+        return False
+    return {n: v for n, v in rhs.items() if cnt.get(n) == 1 and n not in params and pure(v) and not isinstance(v, ast.Name)}
+
+
+def expand(f, node, aliases=None):
+    """Copy of ``node`` with simple aliases of ``f`` replaced by what they name."""
+    import copy
+    al = simple_aliases(f) if aliases is None else aliases
+    if not al or not any(isinstance(y, ast.Name) and y.id in al for y in ast.walk(node)):
+        return node
+
+    class Sub(ast.NodeTransformer):
+        def visit_Name(self, n):
+            if n.id in al and isinstance(n.ctx, ast.Load):
+                return copy.deepcopy(al[n.id])
+            return n
+    return Sub().visit(copy.deepcopy(node))
